@@ -20,6 +20,10 @@ type Entry struct {
 	S, D     kit.TypeInfo
 	Convert  func(src, dst kit.AnyBuf) int
 	NewBlock func() BlockFn // each returned BlockFn owns its buffers (one per goroutine)
+	// Prepared allocates typed buffers (C channels, sFrames / dFrames long, the
+	// destination optionally a window with spare capacity) and returns a closure
+	// that only performs the conversion - for allocation measurements.
+	Prepared func(C, sFrames, dFrames int, window bool) func()
 }
 
 func (e *Entry) Key() string    { return e.S.Name + "/" + e.D.Name }
@@ -83,6 +87,14 @@ func mk[S, D signal.SignalTypes](fn, s, d string, conv func(*signal.Buffer[S], *
 	e := &Entry{Fn: fn, S: kit.Info(s), D: kit.Info(d)}
 	e.Convert = func(src, dst kit.AnyBuf) int {
 		return conv(src.Raw().(*signal.Buffer[S]), dst.Raw().(*signal.Buffer[D]))
+	}
+	e.Prepared = func(C, sFrames, dFrames int, window bool) func() {
+		src := signal.Alloc[S](signal.Allocator{Channels: C, Length: sFrames, Capacity: sFrames})
+		dst := signal.Alloc[D](signal.Allocator{Channels: C, Length: dFrames, Capacity: dFrames})
+		if window {
+			dst = signal.Alloc[D](signal.Allocator{Channels: C, Length: dFrames + 2, Capacity: dFrames + 5}).Slice(1, dFrames+1)
+		}
+		return func() { conv(src, dst) }
 	}
 	sk, dk := e.S.Kind, e.D.Kind
 	sHalf, dHalf := uint64(1)<<(e.S.Bits-1), uint64(1)<<(e.D.Bits-1)
